@@ -148,6 +148,9 @@ NoEarlyClose(cfg, obs) == (WholeInput(cfg, obs) /\ ~obs.cancelled /\ ~obs.closed
 NoStall(cfg, obs) ==
   (WholeInput(cfg, obs) /\ cfg.kind # "Throttling" /\ obs.quiet /\ ~obs.cancelled /\ obs.pending = 0 /\ obs.pend[1] # <<>>
      /\ \A o \in obs.outs : obs.rp[o]) => FALSE
+\* completion is not signalled while the user function is still running on an element (ForEach's done channel, Fold's result)
+DoneMeansDone(cfg, obs) ==
+  (cfg.kind \in {"ForEach", "Fold"} /\ ~obs.cancelled /\ \E o \in obs.outs : obs.seen[o] \/ obs.got[o] # <<>>) => obs.pending = 0
 NoPanic(cfg, obs) == ~obs.panic
 \* time a cancelled generator may need, after the environment's last move, before it notices
 \* (it sleeps between calls, may still serve a receiver that is waiting and may still fill its buffer)
@@ -292,7 +295,7 @@ ThrottlePaced(cfg, obs) ==
 Verdicts(cfg, obs) ==
   [Prefix |-> Prefix(cfg, obs), SeqExact |-> SeqExact(cfg, obs), FoldRes |-> FoldRes(cfg, obs), Complete |-> Complete(cfg, obs), TakeBound |-> TakeBound(cfg, obs),
    CallsPrefix |-> CallsPrefix(cfg, obs), CallsComplete |-> CallsComplete(cfg, obs), NoPanic |-> NoPanic(cfg, obs),
-   NoEarlyClose |-> NoEarlyClose(cfg, obs), NoStall |-> NoStall(cfg, obs),
+   NoEarlyClose |-> NoEarlyClose(cfg, obs), NoStall |-> NoStall(cfg, obs), DoneMeansDone |-> DoneMeansDone(cfg, obs),
    Settle1 |-> Settle1(cfg, obs), Settle2 |-> Settle2(cfg, obs), LiftCloses |-> LiftCloses(cfg, obs),
    PipePrefix |-> PipePrefix(cfg, obs), PipeComplete |-> PipeComplete(cfg, obs), PipeSettle |-> PipeSettle(cfg, obs), PipeGen |-> PipeGen(cfg, obs),
    NeverBlocksSender |-> NeverBlocksSender(cfg, obs), LosslessAfterCancel |-> LosslessAfterCancel(cfg, obs), NewSettle |-> NewSettle(cfg, obs),
